@@ -749,7 +749,8 @@ def check_update(c: Case, outs, moved, rep, stats):
                 text = f"{uname}: SGD(lr=1) moved {gname}.{kk}{list(ix)} by {-float(d[ix])!r}, specification: minus the gradient in [{float(lo[ix])!r}, {float(hi[ix])!r}]"
                 if c.kind == "ppoupd" and (mi, kk) == (1, "kernel"):
                     gb = c.aux["gv_bc"].reshape(old.shape)
-                    if seq(e["gv_bc"]) != seq(e["gv"]) and not (chk & ~((d >= gb - tol - 2 * np.spacing(np.abs(gb).astype(np.float32))) & (d <= gb + tol + 2 * np.spacing(np.abs(gb).astype(np.float32))))).any():
+                    tb = max(c.gulps, 2) * np.spacing(np.maximum(np.abs(gb), 1e-30).astype(np.float32)).astype(np.float64) + 2 * np.spacing((np.abs(old) + np.abs(gb)).astype(np.float32)).astype(np.float64)
+                    if seq(e["gv_bc"]) != seq(e["gv"]) and not (chk & ~((d >= gb - tb) & (d <= gb + tb))).any():
                         key = BROADCAST_KEY
                         text += "; the step follows the gradient of the broadcast value term (every prediction pulled towards the MEAN return)"
                 rep.violation(key, f"{text} {_ctx(c)}", rinfo(c, "upd"))
@@ -852,7 +853,7 @@ def nontrivial(vec):
 
 
 # ----------------------------------------------------------------- the repository's own heads: gradient support and sign
-def real_heads(rep, vectors, stats):
+def real_heads(rep, vectors, stats, scale=1):
     """Objectives on top of the repository's policy heads (softmax, Gaussian, tanh-Gaussian, deterministic tanh, SALE actor)
     over per-state table networks: the gradient of row i of a table is (TLC's coefficient of sample i) x (the head's own
     Jacobian), so its SIGN and SUPPORT are decided by the specification; magnitudes are transcendental and not compared."""
@@ -870,7 +871,7 @@ def real_heads(rep, vectors, stats):
 
     def pick(kind, pred=lambda v: True, cap=12):
         vs = [v for v in vectors if v["kind"] == kind and v["n"] in (2, 4) and pred(v)]
-        idx = rng.permutation(len(vs))[:cap]
+        idx = rng.permutation(len(vs))[: cap * scale]
         return [vs[i] for i in idx]
 
     def sign(x):
@@ -999,11 +1000,15 @@ def real_heads(rep, vectors, stats):
         coefs = [coef_sign(g) for g in seq(vec["exp"]["g"])]
         check_rows("deterministic tanh", FNAME["dpg"], vec, G["policy_net.kernel"], np.ones((S, 1)), coefs, n)
 
-    # --- TD7 actor update with the real ActorSALE: only the actor moves; a critic that is flat in the action moves nothing;
-    #     a small step along the update lowers the objective
+    # --- TD7 with the real ActorSALE: the gradient of the output layer is sum_i (TLC's coefficient of sample i) x (the actor's
+    #     own features of sample i); the update applies minus that gradient to the actor and to nothing else
     from rl_blox.algorithm.td7 import deterministic_policy_gradient_loss_sale, td7_update_actor
     from rl_blox.blox.embedding.sale import ActorSALE, DeterministicSALEPolicy
+    from rl_blox.blox.function_approximator.norm import avg_l1_norm
 
+    lr = 1e-2
+    if "sgd_small" not in _TX:
+        _TX["sgd_small"] = optax.sgd(lr)
     for vec in pick("td7", cap=8):
         n = vec["n"]
         c = realise(vec, (rep.seed, 1214, count.get("td7 ActorSALE", 0)), "n1")
@@ -1011,27 +1016,33 @@ def real_heads(rep, vectors, stats):
         actor = ActorSALE(stubs.LinearTable(rng.normal(size=(4 + 2, 1)).astype(np.float32)), n + 1, 4, nnx.Rngs(int(rng.integers(1 << 30))))
         policy = DeterministicSALEPolicy(mods[0], actor)
         obs = jnp.asarray(c.arrays["obs"])
+        G = grads_of(lambda ms: deterministic_policy_gradient_loss_sale(ms[0], ms[2], obs, ms[1]), [mods[0], actor, mods[2]], 1)[1]
+        he = np.concatenate([np.asarray(avg_l1_norm(actor.l0(obs))), np.asarray(mods[0].state_embedding(obs))], axis=1).astype(np.float64)  # the actor's own features
+        gs = [rng_pair(g) for g in seq(vec["exp"]["g"])]
+        exp_lo = sum(g[0] * he[i] for i, g in enumerate(gs))
+        got = np.asarray(G["policy_net.kernel"], dtype=np.float64)[:, 0]
+        count["td7 ActorSALE"] = count.get("td7 ActorSALE", 0) + 1
+        for d in range(len(got)):
+            if abs(exp_lo[d]) > 1e-4 and sign(got[d]) != sign(exp_lo[d]):
+                report(f"{FNAME['td7']}:real:ActorSALE:sign", f"{FNAME['td7']} with the real ActorSALE: d objective / d output-layer weight {d} = {got[d]!r}; specification: sign of sum_i coefficient_i x feature_i = {exp_lo[d]!r}", "ActorSALE", vec)
+                break
+        flat_critic = fq(vec["par"]["s1"]) + fq(vec["par"]["s2"]) == 0
+        if flat_critic and any(np.any(v != 0) for v in G.values()):
+            report(f"{FNAME['td7']}:real:ActorSALE:support", "the actor receives gradient although the mean critic does not depend on the action", "ActorSALE", vec)
         before = [leafdict(nnx.state(m)) for m in (mods[0], mods[2], actor)]
-        l0 = float(deterministic_policy_gradient_loss_sale(mods[0], mods[2], obs, actor))
-        lr = 1e-2
-        if "sgd_small" not in _TX:
-            _TX["sgd_small"] = optax.sgd(lr)
         td7_update_actor(policy, nnx.Optimizer(actor, _TX["sgd_small"], wrt=nnx.Param), mods[2], obs)
         after = [leafdict(nnx.state(m)) for m in (mods[0], mods[2], actor)]
-        l1 = float(deterministic_policy_gradient_loss_sale(mods[0], mods[2], obs, actor))
-        count["td7 ActorSALE"] = count.get("td7 ActorSALE", 0) + 1
-        for nm, b, a_ in (("embedding", before[0], after[0]), ("critic", before[1], after[1])):
-            if any(b[kk].tobytes() != a_[kk].tobytes() for kk in b):
+        for nm, b_, a_ in (("embedding", before[0], after[0]), ("critic", before[1], after[1])):
+            if any(b_[kk].tobytes() != a_[kk].tobytes() for kk in b_):
                 report(f"td7_update_actor:moves:{nm}", f"td7_update_actor changed the {nm} (real ActorSALE)", "ActorSALE", vec)
-        moved = any(before[2][kk].tobytes() != after[2][kk].tobytes() for kk in before[2])
-        flat_critic = fq(vec["par"]["s1"]) + fq(vec["par"]["s2"]) == 0
-        if flat_critic and moved:
-            report("td7_update_actor:real:ActorSALE:support", "td7_update_actor moved the actor although the mean critic does not depend on the action", "ActorSALE", vec)
-        # first-order decrease predicted by the step itself: |delta theta|^2 / lr; asserted strictly only well above float32 resolution
-        pred = sum(float(np.sum((before[2][kk].astype(np.float64) - after[2][kk]) ** 2)) for kk in before[2]) / lr
-        strict = pred > 1e-4 * max(1.0, abs(l0))
-        if not flat_critic and (not moved or (strict and not l1 < l0) or l1 > l0 + 1e-5 * max(1.0, abs(l0))):
-            report("td7_update_actor:real:ActorSALE:sign", f"td7_update_actor with the real ActorSALE: objective {l0!r} -> {l1!r} after an SGD(lr={lr}) step (moved={moved}, first-order decrease {pred!r}); a descent step must lower -mean Q", "ActorSALE", vec)
+        # the step is minus lr times the gradient of the objective: cosine between the move and the gradient is -1
+        dv = np.concatenate([(after[2][kk].astype(np.float64) - before[2][kk]).reshape(-1) for kk in sorted(before[2])])
+        gv = np.concatenate([np.asarray(G[kk], dtype=np.float64).reshape(-1) for kk in sorted(before[2])])
+        ng, nd = float(np.linalg.norm(gv)), float(np.linalg.norm(dv))
+        if ng > 1e-4 and not (nd > 0 and float(dv @ gv) / (ng * nd) < -0.99):
+            report("td7_update_actor:real:ActorSALE:sign", f"td7_update_actor with the real ActorSALE: the SGD(lr={lr}) step is not along minus the gradient of the objective (cosine {float(dv @ gv) / (ng * nd) if nd else 0.0!r})", "ActorSALE", vec)
+        if ng == 0 and nd != 0:
+            report("td7_update_actor:real:ActorSALE:support", "td7_update_actor moved the actor although its gradient is zero", "ActorSALE", vec)
 
     # --- SAC actor and temperature with the tanh-Gaussian head
     box2 = gym.spaces.Box(low=np.array([-2.0], dtype=np.float32), high=np.array([2.0], dtype=np.float32))
@@ -1069,7 +1080,7 @@ def real_heads(rep, vectors, stats):
     class _Env:
         action_space = box2
 
-    for trial in range(6):
+    for trial in range(6 * scale):
         S = 5
         obs = jnp.asarray(stubs.onehot(np.arange(4), S))
         policy = PH.GaussianTanhPolicy(SA.GaussTable(rng.normal(size=(S, 1)).astype(np.float32), rng.normal(size=(S, 1)).astype(np.float32)), box2)
@@ -1182,14 +1193,17 @@ def run(rep):
     tlc.sany("Actor")
     workers = int(os.environ.get("VERIF_TLC_WORKERS", "16"))
     base = dict(EMIT=False, Kinds=set(ALL_KINDS), NSet={1, 2}, LAT="small", DEV="")
-    sims = [dict(NSet={2, 4}, LAT="full", num=700 if quick else 6000), dict(NSet={1, 3}, LAT="full", num=250 if quick else 2500)]
+    sims = [dict(NSet={2, 4}, LAT="full", num=700 if quick else 16000), dict(NSet={1, 3}, LAT="full", num=250 if quick else 6000)]
     with ThreadPoolExecutor(max_workers=6 + len(sims)) as pool:
         can = spec_canaries(pool)
         # 1. the relational clauses on the model, exhaustive over the small lattice
         f_inv = pool.submit(tlc.run, "Actor", tlc.cfg_text(constants=base, invariants=INVS), workers=workers, tag="actor-inv", timeout=1500)
         # 2. vectors: the same lattice exhaustively, and seeded random walks over the full lattice (invariants checked there too)
         f_gen = pool.submit(tlc.run, "Actor", tlc.cfg_text(constants=dict(base, EMIT=True)), workers=1, tag="actor-gen", timeout=1500)
-        f_inv3 = None
+        f_inv3 = f_full = None
+        if not quick:  # the FULL lattice exhaustively for the kinds whose row lattice is small
+            cf = dict(base, EMIT=True, LAT="full", Kinds={"pg", "a2c", "dpg", "td7", "temp", "ppoupd"})
+            f_full = pool.submit(tlc.run, "Actor", tlc.cfg_text(constants=cf, invariants=INVS), workers=1, tag="actor-full", timeout=3000)
         if not quick:  # batches of three rows for the kinds whose small row lattice allows it
             c3 = dict(base, NSet={3}, Kinds={"pg", "a2c", "dpg", "td7", "temp", "ppoupd", "sac"})
             f_inv3 = pool.submit(tlc.run, "Actor", tlc.cfg_text(constants=c3, invariants=INVS), workers=workers, tag="actor-inv3", timeout=3000)
@@ -1206,6 +1220,7 @@ def run(rep):
         g = f_gen.result()
         sim_res = [f.result() for f in f_sim]
         r3 = f_inv3.result() if f_inv3 is not None else None
+        rf = f_full.result() if f_full is not None else None
     rep.add_tlc(r, "Actor small lattice N in {1,2}: invariants")
     if not r.ok:
         rep.violation(f"spec:Actor:{r.violated}", f"design-level violation of {r.violated}", r.error_trace)
@@ -1215,6 +1230,12 @@ def run(rep):
         if not r3.ok:
             rep.violation(f"spec:Actor:{r3.violated}", f"design-level violation of {r3.violated} (N=3)", r3.error_trace)
     vectors = list(g.emitted)
+    if rf is not None:
+        rep.add_tlc(rf, "Actor full lattice N in {1,2} (pg a2c dpg td7 temp ppoupd): invariants + generation")
+        if not rf.ok:
+            rep.violation(f"spec:Actor:{rf.violated}", f"design-level violation of {rf.violated} (full lattice)", rf.error_trace)
+        vectors += rf.emitted
+        rep.extra["vectors_full_lattice"] = len(rf.emitted)
     sim_total = 0
     for sr in sim_res:
         if sr.violated:
@@ -1234,7 +1255,15 @@ def run(rep):
     stats = new_stats()
     total = evaluate(rep, uniq, stats, upd_every=3 if quick else 1)
     tm["replay"] = round(time.time() - t0, 1)
-    total += real_heads(rep, uniq, stats)
+    try:
+        total += real_heads(rep, uniq, stats, scale=1 if quick else 4)
+    except tlc.MachineryError:
+        raise
+    except Exception as ex:  # raised by the code under test on inputs for which the specification defines a result
+        tb = traceback.format_exc()
+        if "/rl_blox/" not in tb:
+            raise
+        rep.violation("real_heads:exception", f"an objective raised {type(ex).__name__}: {str(ex).splitlines()[0][:200] if str(ex) else ''} with the repository's own policy head", {"vec": {}, "level": "real", "scenario": "exception", "seed": rep.seed, "traceback": tb[-2000:]})
     tm["real_heads"] = round(time.time() - t0, 1)
     binding_canary(rep, uniq, stats["failed"])
     tm["binding_canary"] = round(time.time() - t0, 1)
@@ -1251,8 +1280,12 @@ def run(rep):
         "coefficient is non-zero; every distinct vector is realised with stub modules (one parameter per sample) and replayed at function level with critic output shapes "
         "(N,1) and (N,), and (kinds with an update function) through one SGD(lr=1) step of the real update"
     )
-    for v in [u for u in uniq if u["n"] >= 2 and nontrivial(u) and u["kind"] in ("ppo", "sac", "reinforce")][:: max(1, len(uniq) // 4)][:3]:
-        rep.sample({"kind": v["kind"], "n": v["n"], "par": v["par"], "rows": v["rows"], "expected": {kk: v["exp"][kk] for kk in ("loss", "g") if kk in v["exp"]}})
+    for kind, pred in (("ppo", lambda v: len({json.dumps(r["ratio"]) for r in v["rows"]}) > 1 and all(fq(r["adv"]) != 0 for r in v["rows"])),
+                       ("reinforce", lambda v: v["par"]["base"] and v["par"]["disc"]), ("sac", lambda v: fq(v["par"]["alpha"]) != 0), ("temp", lambda v: True)):
+        cand = [u for u in uniq if u["kind"] == kind and u["n"] == 2 and nontrivial(u) and pred(u)]
+        if cand:
+            v = cand[len(cand) // 2]
+            rep.sample({"kind": v["kind"], "n": v["n"], "par": v["par"], "rows": v["rows"], "expected": {kk: v["exp"][kk] for kk in ("loss", "g", "ga", "gv", "galpha", "dir", "active") if kk in v["exp"]}})
     rep.extra.update(
         vectors_small_lattice=len(g.emitted), vectors_random_walks=sim_total, distinct_vectors=len(uniq), function_level_evaluations=stats["fn"],
         update_level_evaluations=stats["upd"], per_kind=stats["per_kind"], batch_size_1=stats["batch1"], ppo_samples_at_a_clip_edge=stats["kinks"],
